@@ -304,8 +304,23 @@ impl Memfs {
         let m = opts.clone();
         let vfs = self.clone();
         entries = entries.follow(opts.follow).dirs_first().pre_op(move |x| {
+            // A followed link stands for its target so work with the target's own entry
+            let target;
+            let x = if x.is_symlink() && x.following() {
+                target = match vfs._clone_entry(&vfs.read_guard(), x.path()) {
+                    Ok(entry) => entry.upcast(),
+                    Err(_) => return Ok(()),
+                };
+                &target
+            } else {
+                x
+            };
             let m1 = sys::mode(x, m.dirs, &m.sym)?;
-            if (!x.is_symlink() || m.follow) && x.is_dir() && !sys::revoking_mode(x.mode(), m1) && x.mode() != m1 {
+            if (!x.is_symlink() || m.follow)
+                && x.is_dir()
+                && !sys::revoking_mode(x.mode(), m1)
+                && x.mode() != m1
+            {
                 let mut guard = vfs.write_guard();
                 if let Some(entry) = guard.get_entry_mut(x.path()) {
                     if !entry.is_symlink() {
@@ -318,7 +333,15 @@ impl Memfs {
 
         // Set permissions on the way out for everything specified
         for entry in entries {
-            let src = entry?;
+            let mut src = entry?;
+
+            // A followed link stands for its target so work with the target's own entry
+            if src.is_symlink() && src.following() {
+                src = match self._clone_entry(&self.read_guard(), src.path()) {
+                    Ok(entry) => entry.upcast(),
+                    Err(_) => continue,
+                };
+            }
 
             // Compute mode based on octal and symbolic values
             let m2 = if src.is_dir() {
